@@ -1,10 +1,27 @@
 (* Mini/ProofsZap.v — the syntactic faults of the catalogue: an occurrence whose identifier is replaced by the
    never-declared identifier is blamed with the class of its position; a repeated declaration is blamed at the
    copy; the design units that do not contain the plant site are unchanged and the units before the faulty one are
-   accepted as before (C06).  Proofs. *)
+   accepted as before (C06).  Proofs.
+
+   Helper files (all Qed, no axioms):
+     Mini/ProofsZapSyn.v    syntactic lemmas: the plants are maps over design units, om/dup/sub leave phrases without
+                            the node id unchanged, classified occurrences carry node ids of the phrase
+     Mini/ProofsZapEq.v     unfolding equations of the mutual fixpoints of Sem.v / Faults.v
+     Mini/ProofsZapSem.v    zap: expressions, statements, declarations     (first-error argument along the checker)
+     Mini/ProofsZapSem2.v   zap: association lists, concurrent statements, context clauses
+     Mini/ProofsZapSem3.v   zap: design units, unit lists, libraries
+     Mini/ProofsZapAgree.v  an accepted expression stays accepted under a node-id shift and a change of the
+                            environment at names it cannot have used
+     Mini/ProofsZapDup.v    dup: the copy of a declaration passes the checks that precede its `declare`, then clashes
+
+   History: the statements zap_blame and dup_blame were false for the first version of the definitions (found while
+   proving them; see the regression examples at the end): a named association whose formal was already associated
+   positionally was never checked (Sem.check_amap now rejects it), and the copy of a component with a port named
+   like the component hit the no-hiding guard first (Faults.sh_decl no longer duplicates components).  Reflexivity
+   of Sem.sty_eqb on SErr is used for the copies of subprogram declarations. *)
 From Coq Require Import List NArith Arith Bool Lia.
 Import ListNotations.
-From RH Require Import Mini.Syntax Mini.Sem Mini.Walk Mini.Faults.
+From RH Require Import Mini.Syntax Mini.Sem Mini.Walk Mini.Faults Mini.ProofsZapSyn Mini.ProofsZapSem Mini.ProofsZapSem3 Mini.ProofsZapDup.
 Open Scope N_scope.
 
 (* PINNED STATEMENTS (to be proved; do not change the statements) *)
@@ -13,25 +30,102 @@ Theorem zap_blame : forall p s k x c,
   Valid p -> NoDup (nids_program p) -> In (s, k, x) (occs_program p) -> cls_of_okind k = Some c ->
   blame_program (zap s p) = Some (s, c).
 Proof.
-Admitted.
+  intros p s k x c HV Hnd Hin Hc.
+  unfold Valid, blame_program, check_program, check_program_md in *.
+  assert (HL : map l_name (zap s p) = map l_name p) by (unfold zap, om_program; rewrite map_map; reflexivity).
+  rewrite HL.
+  destruct (guard (nodup_idents (map l_name p) && negb (existsb (N.eqb id_undeclared) (map l_name p))) 0 Other)
+    as [a|n cl]; cbn [bind] in *; [|discriminate HV].
+  destruct (check_libs Exactly [] (map l_name p) 0 p) as [GE|n cl] eqn:E; cbn [bind] in HV; [|discriminate HV].
+  rewrite (check_libs_zap Exactly s c (map l_name p) p [] 0 GE Hnd); [reflexivity | | exact E].
+  exists k, x. split; assumption.
+Qed.
 
 Theorem dup_blame : forall p s,
   Valid p -> NoDup (nids_program p) -> In s (dup_sites p) ->
   blame_program (dup s p) = Some (s + (max_nid p + 1), Duplicate).
 Proof.
-Admitted.
+  intros p s HV Hnd Hin.
+  unfold Valid, blame_program, check_program, check_program_md in *.
+  assert (HL : map l_name (dup s p) = map l_name p) by (unfold dup; rewrite map_map; reflexivity).
+  rewrite HL.
+  destruct (guard (nodup_idents (map l_name p) && negb (existsb (N.eqb id_undeclared) (map l_name p))) 0 Other)
+    as [a|n cl]; cbn [bind] in *; [|discriminate HV].
+  destruct (check_libs Exactly [] (map l_name p) 0 p) as [GE|n cl] eqn:E; cbn [bind] in HV; [|discriminate HV].
+  change (dup s p) with (map (fun l => Lib (l_name l) (map (dupu s (max_nid p + 1)) (l_units l))) p).
+  rewrite (check_libs_dup Exactly s (max_nid p + 1) (map l_name p) p [] 0 GE Hnd Hin E). reflexivity.
+Qed.
 
 (* no plant adds, removes or moves design units; units that do not contain the site are textually unchanged *)
 Theorem plant_other_units_unchanged : forall p st k l u,
   nth_error (flat_units p) k = Some (l, u) -> ~ In (site_nid st) (nids_dunit u) ->
   nth_error (flat_units (plant st p)) k = Some (l, u).
 Proof.
-Admitted.
+  intros p st k l u Hn Hs. rewrite plant_as_map, flat_units_map.
+  rewrite (map_nth_error _ _ _ Hn). cbn [fst snd]. rewrite plant_unit_id by exact Hs. reflexivity.
+Qed.
 
-(* the units before the (first) unit that contains the site are accepted in the planted program as in the original *)
+(* the checker accepts every prefix of an accepted unit list *)
+Lemma check_units_app : forall md LIBS lib us1 us2 GE uid x,
+  check_units md GE LIBS lib uid (us1 ++ us2) = Ok x ->
+  exists x1, check_units md GE LIBS lib uid us1 = Ok x1.
+Proof.
+  intros md LIBS lib. induction us1 as [|u r IH]; intros us2 GE uid x H; cbn [app check_units] in *.
+  - eexists; reflexivity.
+  - destruct (check_unit md GE LIBS lib uid u) as [g|n c]; cbn [bind] in *; [|discriminate].
+    eapply IH. exact H.
+Qed.
+Lemma check_libs_truncate0 : forall md LIBS r GE uid,
+  exists GE', check_libs md GE LIBS uid (truncate 0 r) = Ok GE'.
+Proof.
+  intros md LIBS. induction r as [|l r IH]; intros GE uid; cbn [truncate check_libs].
+  - eexists; reflexivity.
+  - cbn [firstn l_units l_name check_units bind fst snd Nat.sub]. apply IH.
+Qed.
+Lemma check_libs_truncate : forall md LIBS p k GE uid GE1,
+  check_libs md GE LIBS uid p = Ok GE1 ->
+  exists GE', check_libs md GE LIBS uid (truncate k p) = Ok GE'.
+Proof.
+  intros md LIBS. induction p as [|l r IH]; intros k GE uid GE1 H; cbn [truncate check_libs] in *.
+  - eexists; reflexivity.
+  - cbn [l_units l_name].
+    destruct (check_units md GE LIBS (l_name l) uid (l_units l)) as [x|n c] eqn:E; cbn [bind] in H; [|discriminate].
+    destruct (Nat.le_gt_cases (length (l_units l)) k) as [Hk|Hk].
+    + rewrite firstn_all2 by exact Hk. rewrite E. cbn [bind]. eapply IH. exact H.
+    + replace (k - length (l_units l))%nat with 0%nat by lia.
+      rewrite <- (firstn_skipn k (l_units l)) in E.
+      destruct (check_units_app _ _ _ _ _ _ _ _ E) as (x1 & E1). rewrite E1. cbn [bind].
+      apply check_libs_truncate0.
+Qed.
+
 Theorem plant_prefix_ok : forall p st k,
   Valid p ->
   (forall j l u, (j < k)%nat -> nth_error (flat_units p) j = Some (l, u) -> ~ In (site_nid st) (nids_dunit u)) ->
   prefix_ok (plant st p) k.
 Proof.
-Admitted.
+  intros p st k HV Hpre. unfold prefix_ok. rewrite plant_libs. rewrite plant_as_map.
+  rewrite truncate_map_units.
+  2:{ intros j l u Hj Hn. apply plant_unit_id. eapply Hpre; eassumption. }
+  unfold Valid, check_program, check_program_md in HV.
+  destruct (guard (nodup_idents (map l_name p) && negb (existsb (N.eqb id_undeclared) (map l_name p))) 0 Other)
+    as [a|n c]; cbn [bind] in HV; [|discriminate].
+  destruct (check_libs Exactly [] (map l_name p) 0 p) as [GE|n c] eqn:E; cbn [bind] in HV; [|discriminate].
+  eapply check_libs_truncate. exact E.
+Qed.
+
+(* ------------------------------------------------------------------------------------------ *)
+(* regression examples: the two programs that refuted the first version of the definitions      *)
+(* ------------------------------------------------------------------------------------------ *)
+(* generic map (1, g => xyz): g is associated positionally and by name; the named actual was never looked at *)
+Definition zap_cex : program :=
+  [Lib 8 [ DUnit [] (UEnt (Occ 1 9) [IFace (Occ 2 10) MIn TMInt None] []);
+           DUnit [XLib (Occ 3 8)] (UArch (Occ 4 11) (Occ 5 9) []
+             (CCons (CInstE (Occ 6 12) (Occ 7 8) (Occ 8 9) None
+                      [(None, AExpr (EInt 9 1)); (Some (Occ 10 10), AExpr (ENam (NId (Occ 11 13))))] []) CNil)) ]].
+Example zap_cex_now_rejected : check_program zap_cex = Bad 8 Other.
+Proof. vm_compute. reflexivity. Qed.
+(* component c with a port named c: valid, but its copy is rejected at the port, not at the component name *)
+Definition dup_cex : program :=
+  [Lib 8 [ DUnit [] (UPkg (Occ 1 9) [DComp (Occ 2 10) [] [IFace (Occ 3 10) MIn TMBit None]]) ]].
+Example dup_cex_no_site : check_program dup_cex = Ok tt /\ dup_sites dup_cex = [].
+Proof. vm_compute. split; reflexivity. Qed.
